@@ -80,7 +80,7 @@ def build_msg(pb: Any, item: list[Any], ops: list[dict[str, Any]], n: int) -> An
         if name in HANDLE_OPS:
             t = HANDLE_OPS[name]
             if t == "BluetoothGATTReadResponse":
-                return pb.BluetoothGATTReadResponse(address=aa, handle=hh, data=bytes([n, 7, n]))
+                return pb.BluetoothGATTReadResponse(address=aa, handle=hh, data=bytes([n % 251, 7, n % 241]))
             return getattr(pb, t)(address=aa, handle=hh)
         if name in ADDR_OPS:
             if name == "pair":
@@ -95,7 +95,7 @@ def build_msg(pb: Any, item: list[Any], ops: list[dict[str, Any]], n: int) -> An
     if kind in ("err", "err_fa", "err_fh"):
         return pb.BluetoothGATTErrorResponse(address=other(a) if kind == "err_fa" else a, handle=other_h(h) if kind == "err_fh" else h, error=n)
     if kind == "data":
-        return pb.BluetoothGATTNotifyDataResponse(address=a, handle=h, data=bytes([n]))
+        return pb.BluetoothGATTNotifyDataResponse(address=a, handle=h, data=bytes([n % 251]))
     raise ValueError(kind)
 
 
